@@ -217,6 +217,18 @@ pub fn run(ctx: &Ctx) {
     for unknown in ["ports", "batchsize", "Port", "foo", "num_worker"] {
         case(&mut out, &base(vec![(unknown, "5".to_string())]), &dir);
     }
+    // unknown keys whose value is blank / null / a word, and documented keys with a null value (seeded change C16-r5
+    // skipped null values before it looked at the key: a blank unknown key was accepted, a blank known key took its default)
+    for unknown in ["ports", "foo", "Batch_size"] {
+        for val in ["", "~", "null", "\"x\"", "word", "1.5"] {
+            case(&mut out, &base(vec![(unknown, val.to_string())]), &dir);
+        }
+    }
+    for key in ["port", "batch_size", "fault_percentage", "num_workers", "status_interval", "health_check_port", "interface", "seed", "kms_protection", "client_stats", "persistence_directory"] {
+        for val in ["~", "null"] {
+            case(&mut out, &base(vec![(key, val.to_string())]), &dir);
+        }
+    }
     // seeds of wrong length / alphabet
     for s in [
         "", "00", &seed_hex[..62], &format!("{}00", seed_hex), &seed_hex[..63], &seed_hex.to_uppercase(),
@@ -310,6 +322,12 @@ fn leak_case(out: &mut Out, file_mode: bool, seedcase: &str, level: &str, varian
         "kms-gcp" => entries.push(("kms_protection".into(), "projects/p/locations/global/keyRings/r/cryptoKeys/k".into())),
         "kms-bad" => entries.push(("kms_protection".into(), "vault".into())),
         "seed-long" => { entries[2].1.push_str("ab"); }
+        // a seed that is valid once surrounding whitespace / a radix prefix / quotes are removed: whatever the loader does
+        // about it (refuse, trim, warn) must not quote the value (seeded change C20-r9: a trimming helper logged the raw text)
+        "seed-ws-trail" => { entries[2].1 = format!("\"{} \"", entries[2].1); }
+        "seed-ws-lead" => { entries[2].1 = format!("\"  {}\"", entries[2].1); }
+        "seed-newline" => { entries[2].1 = if file_mode { format!("\"{}\\n\"", entries[2].1) } else { format!("{}\n", entries[2].1) }; }
+        "seed-0x" => { entries[2].1 = format!("0x{}", entries[2].1); }
         // a key given twice (yaml-rust keeps the last one): whatever the loader says about it must not quote the seed
         // (seeded change C20-r6: a duplicate-key warning quoted both source lines)
         "dup-seed" => { let other: String = entries[2].1.chars().rev().collect(); entries.insert(1, ("seed".into(), other)); }
@@ -363,7 +381,7 @@ pub fn run_leak(ctx: &Ctx) {
     for file_mode in [true, false] {
         for seedcase in ["lower", "upper", "mixed"] {
             for level in ["off", "error", "warn", "info", "debug", "trace"] {
-                for variant in ["valid", "bad-batch", "unknown-key", "bad-int", "stats-no-dir", "kms-aws", "kms-gcp", "kms-bad", "seed-long",
+                for variant in ["valid", "bad-batch", "unknown-key", "bad-int", "stats-no-dir", "kms-aws", "kms-gcp", "kms-bad", "seed-long", "seed-ws-trail", "seed-ws-lead", "seed-newline", "seed-0x",
                                 "bad-port", "bad-workers", "bad-fault", "dir-missing", "dup-seed", "dup-seed-same", "dup-port"] {
                     if !file_mode && variant.starts_with("dup-") { continue; }
                     n += 1;
